@@ -1,0 +1,264 @@
+//! Verification hook (feature `verif_hooks`): drop-in replacements for
+//! `tokio::sync::{RwLock, Mutex}` that record request / acquire / release events
+//! per task and offer seeded schedule points. Without an installed trace they
+//! are plain pass-through wrappers.
+
+use std::future::Future;
+use std::ops::{Deref, DerefMut};
+use std::panic::Location;
+use std::sync::Mutex as StdMutex;
+
+#[derive(Debug, Clone, Copy, PartialEq, Eq)]
+pub enum LockMode {
+    Read,
+    Write,
+    Mutex,
+}
+
+#[derive(Debug, Clone, Copy, PartialEq, Eq)]
+pub enum LockEventKind {
+    Request,
+    Acquire,
+    Release,
+}
+
+#[derive(Debug, Clone)]
+pub struct LockEvent {
+    pub seq: u64,
+    /// tokio task id, `None` for the thread driving the runtime (`block_on`)
+    pub task: Option<u64>,
+    pub kind: LockEventKind,
+    /// type name of the protected value (identifies the lock)
+    pub lock: &'static str,
+    pub mode: LockMode,
+    /// `file:line` of the acquiring call site
+    pub site: String,
+}
+
+struct Trace {
+    events: Vec<LockEvent>,
+    seq: u64,
+    /// xorshift state for schedule points; 0 = no extra yields
+    rng: u64,
+}
+
+static TRACE: StdMutex<Option<Trace>> = StdMutex::new(None);
+
+/// Start recording. `sched_seed != 0` additionally makes every lock request yield a
+/// pseudo-random number of times (seeded), to explore interleavings.
+pub fn install(sched_seed: u64) {
+    if let Ok(mut t) = TRACE.lock() {
+        *t = Some(Trace {
+            events: Vec::new(),
+            seq: 0,
+            rng: sched_seed,
+        });
+    }
+}
+
+/// Stop recording and return the log.
+pub fn take() -> Vec<LockEvent> {
+    TRACE
+        .lock()
+        .ok()
+        .and_then(|mut t| t.take())
+        .map(|t| t.events)
+        .unwrap_or_default()
+}
+
+fn current_task() -> Option<u64> {
+    tokio::task::try_id().map(|id| {
+        // the id only implements Display
+        id.to_string().parse::<u64>().unwrap_or(u64::MAX)
+    })
+}
+
+fn record(kind: LockEventKind, lock: &'static str, mode: LockMode, site: &'static Location<'static>) {
+    if let Ok(mut guard) = TRACE.lock()
+        && let Some(t) = guard.as_mut()
+    {
+        t.seq += 1;
+        let seq = t.seq;
+        t.events.push(LockEvent {
+            seq,
+            task: current_task(),
+            kind,
+            lock,
+            mode,
+            site: format!("{}:{}", site.file(), site.line()),
+        });
+    }
+}
+
+fn yields() -> u32 {
+    if let Ok(mut guard) = TRACE.lock()
+        && let Some(t) = guard.as_mut()
+        && t.rng != 0
+    {
+        let mut x = t.rng;
+        x ^= x << 13;
+        x ^= x >> 7;
+        x ^= x << 17;
+        t.rng = x;
+        // 0 yields half of the time, then geometric
+        return (x >> 20).trailing_ones().min(6);
+    }
+    0
+}
+
+/// Seeded schedule point: yields to the scheduler 0..=6 times.
+pub async fn sched_point() {
+    for _ in 0..yields() {
+        tokio::task::yield_now().await;
+    }
+}
+
+pub struct RwLock<T> {
+    inner: tokio::sync::RwLock<T>,
+}
+
+pub struct ReadGuard<'a, T> {
+    inner: tokio::sync::RwLockReadGuard<'a, T>,
+    site: &'static Location<'static>,
+}
+
+pub struct WriteGuard<'a, T> {
+    inner: tokio::sync::RwLockWriteGuard<'a, T>,
+    site: &'static Location<'static>,
+}
+
+impl<T> RwLock<T> {
+    pub fn new(value: T) -> Self {
+        Self {
+            inner: tokio::sync::RwLock::new(value),
+        }
+    }
+
+    #[track_caller]
+    pub fn read(&self) -> impl Future<Output = ReadGuard<'_, T>> {
+        let site = Location::caller();
+        async move {
+            let name = std::any::type_name::<T>();
+            sched_point().await;
+            record(LockEventKind::Request, name, LockMode::Read, site);
+            let inner = self.inner.read().await;
+            record(LockEventKind::Acquire, name, LockMode::Read, site);
+            let guard = ReadGuard { inner, site };
+            sched_point().await;
+            guard
+        }
+    }
+
+    #[track_caller]
+    pub fn write(&self) -> impl Future<Output = WriteGuard<'_, T>> {
+        let site = Location::caller();
+        async move {
+            let name = std::any::type_name::<T>();
+            sched_point().await;
+            record(LockEventKind::Request, name, LockMode::Write, site);
+            let inner = self.inner.write().await;
+            record(LockEventKind::Acquire, name, LockMode::Write, site);
+            let guard = WriteGuard { inner, site };
+            sched_point().await;
+            guard
+        }
+    }
+}
+
+impl<T> Deref for ReadGuard<'_, T> {
+    type Target = T;
+    fn deref(&self) -> &T {
+        &self.inner
+    }
+}
+
+impl<T> Drop for ReadGuard<'_, T> {
+    fn drop(&mut self) {
+        record(
+            LockEventKind::Release,
+            std::any::type_name::<T>(),
+            LockMode::Read,
+            self.site,
+        );
+    }
+}
+
+impl<T> Deref for WriteGuard<'_, T> {
+    type Target = T;
+    fn deref(&self) -> &T {
+        &self.inner
+    }
+}
+
+impl<T> DerefMut for WriteGuard<'_, T> {
+    fn deref_mut(&mut self) -> &mut T {
+        &mut self.inner
+    }
+}
+
+impl<T> Drop for WriteGuard<'_, T> {
+    fn drop(&mut self) {
+        record(
+            LockEventKind::Release,
+            std::any::type_name::<T>(),
+            LockMode::Write,
+            self.site,
+        );
+    }
+}
+
+pub struct Mutex<T> {
+    inner: tokio::sync::Mutex<T>,
+}
+
+pub struct MutexGuard<'a, T> {
+    inner: tokio::sync::MutexGuard<'a, T>,
+    site: &'static Location<'static>,
+}
+
+impl<T> Mutex<T> {
+    pub fn new(value: T) -> Self {
+        Self {
+            inner: tokio::sync::Mutex::new(value),
+        }
+    }
+
+    #[track_caller]
+    pub fn lock(&self) -> impl Future<Output = MutexGuard<'_, T>> {
+        let site = Location::caller();
+        async move {
+            let name = std::any::type_name::<T>();
+            sched_point().await;
+            record(LockEventKind::Request, name, LockMode::Mutex, site);
+            let inner = self.inner.lock().await;
+            record(LockEventKind::Acquire, name, LockMode::Mutex, site);
+            let guard = MutexGuard { inner, site };
+            sched_point().await;
+            guard
+        }
+    }
+}
+
+impl<T> Deref for MutexGuard<'_, T> {
+    type Target = T;
+    fn deref(&self) -> &T {
+        &self.inner
+    }
+}
+
+impl<T> DerefMut for MutexGuard<'_, T> {
+    fn deref_mut(&mut self) -> &mut T {
+        &mut self.inner
+    }
+}
+
+impl<T> Drop for MutexGuard<'_, T> {
+    fn drop(&mut self) {
+        record(
+            LockEventKind::Release,
+            std::any::type_name::<T>(),
+            LockMode::Mutex,
+            self.site,
+        );
+    }
+}
